@@ -79,6 +79,8 @@ def session(pa, rng, length, max_obj=5):
     def free():
         return [i for i in range(1, max_obj + 1) if i not in objs]
 
+    unlabelled = rng.random() < 0.3      # a session on a continuum without any label (positional information only)
+
     def seed_continuum():
         c = pa.Continuum()
         for a in ANNS[: rng.randint(2, 3)]:
@@ -86,7 +88,7 @@ def session(pa, rng, length, max_obj=5):
             for _ in range(rng.randint(1, 4)):
                 t += rng.randint(0, 3)
                 d = rng.randint(1, 4)
-                c.add(a, Segment(float(t), float(t + d)), rng.choice(LABELS))
+                c.add(a, Segment(float(t), float(t + d)), None if unlabelled else rng.choice(LABELS))
                 t += d
         return c
 
@@ -143,10 +145,13 @@ def session(pa, rng, length, max_obj=5):
                     else:
                         label_counter[0] += 1
                         s0 = float(rng.randint(40, 60))
-                        src.add(a, Segment(s0, s0 + 1.0), f"new{label_counter[0]}")
-                        emit({"op": "add", "args": [o2, a, s0, s0 + 1.0, f"new{label_counter[0]}"], "out": "ok"})
+                        nl = None if unlabelled else f"new{label_counter[0]}"
+                        src.add(a, Segment(s0, s0 + 1.0), nl)
+                        emit({"op": "add", "args": [o2, a, s0, s0 + 1.0, nl], "out": "ok"})
                 continue
             try:
+                if kind == "add_new_label" and unlabelled:
+                    kind = "reset_bounds"
                 if kind == "add_new_label":
                     label_counter[0] += 1
                     lab = f"new{label_counter[0]}"
@@ -156,7 +161,7 @@ def session(pa, rng, length, max_obj=5):
                     c.add(a, Segment(s, s + 1.5), lab)
                 elif kind == "add":
                     a, s = rng.choice(ANNS + ["d"]), float(rng.randint(-3, 40))
-                    lab = rng.choice(LABELS)
+                    lab = None if unlabelled else rng.choice(LABELS)
                     e.update(op="add", args=[o, a, s, s + 2.0, lab])
                     c.add(a, Segment(s, s + 2.0), lab)
                 elif kind == "add_annotator":
@@ -203,7 +208,8 @@ def session(pa, rng, length, max_obj=5):
                     al.unitary_alignments[0].compute_disorder(d)
                     d.valid_alignments(c)
                 elif kind == "gamma":
-                    c.compute_gamma(d, n_samples=2, sampler=rng.choice([None, pa.ShuffleContinuumSampler("float_pivot")]),
+                    c.compute_gamma(d, n_samples=2, sampler=pa.ShuffleContinuumSampler("float_pivot") if unlabelled else
+                                    rng.choice([None, pa.ShuffleContinuumSampler("float_pivot")]),
                                     ground_truth_annotators=rng.choice([None, list(c.annotators)[:2]]))
                 elif kind == "gamma_soft":
                     c.compute_gamma(d, n_samples=2, soft=True, precision_level=rng.choice([None, 0.5]))
@@ -271,8 +277,9 @@ def session(pa, rng, length, max_obj=5):
                     a, u = rng.choice(pool)
                     label_counter[0] += 1
                     s0 = float(rng.randint(40, 60))
-                    src.add(a, Segment(s0, s0 + 1.0), f"new{label_counter[0]}")
-                    emit({"op": "add", "args": [src_id, a, s0, s0 + 1.0, f"new{label_counter[0]}"], "out": "ok"})
+                    nl = None if unlabelled else f"new{label_counter[0]}"
+                    src.add(a, Segment(s0, s0 + 1.0), nl)
+                    emit({"op": "add", "args": [src_id, a, s0, s0 + 1.0, nl], "out": "ok"})
     return events
 
 
